@@ -5,10 +5,11 @@ built-ins) can be written with their control flow: `if`, `while`, labelled `brea
 `return`, `yield`, nested coroutine calls.
 
 Every expression occurrence carries a tag (`Ex.tag`); an interpretation maps the tag to what the
-occurrence does (`COp`): a pure function of the locals it mentions, one of the suspending
-built-ins of `Model/Scratch.lean` (`read_uXXYe?`, `skip?`, `skip?(n: 1)`, `write_u8?`), or an
-externally given operation (a callee). The control flow, the locals and what a suspension does to
-them are `Model/LivenessRun.lean`'s `run`; this file supplies the world:
+occurrence does (`COp`): a pure function of the `this.…` fields and of the locals it mentions, a
+store to a field, one of the suspending built-ins of `Model/Scratch.lean` (`read_uXXYe?`,
+`skip?`, `skip?(n: 1)`, `write_u8?`), what the driver does on a `yield?`, or an externally given
+operation (a callee). The control flow, the locals and what a suspension does to them are
+`Model/LivenessRun.lean`'s `run`; this file supplies the world:
 
 * `CW`, the chunked world: the source arrives as a list of chunks, the destination capacity as a
   list of pieces (the driver of `Model/Scratch.lean`, i.e. harness/cmd/c05/cprobe.go); each
@@ -17,10 +18,9 @@ them are `Model/LivenessRun.lean`'s `run`; this file supplies the world:
   of suspensions is reported to `run`, which resets the non-saved locals accordingly.
 * `OW`, the one-shot world: the undivided source, an unbounded destination.
 
-A world also records `dead` (the source is closed and a built-in wanted more: the coroutine's
-final status is `$short read`; nothing after that point is observable, the world is frozen) and
-`obs`, the values computed while alive (a superset of the observable state, e.g. what is stored
-to `this.…` fields).
+Both carry the `this.…` fields, the value computed last, `dead` (the source is closed and the
+coroutine asked for more: its final status is `$short read`; nothing after that point is
+observable, the world is frozen) and `obs`, the values computed while alive.
 
 Core Lean only.
 -/
@@ -30,13 +30,29 @@ import WuffsVerif.Model.Scratch
 namespace WuffsVerif.Split
 open WuffsVerif.Liveness WuffsVerif.Scratch
 
+/-- The part of the world that has nothing to do with I/O. -/
+structure Mem where
+  fields : List Nat
+  last : Nat
+  dead : Bool
+  obs : List Nat
+  /-- number of `yield?`s executed while alive -/
+  nyield : Nat
+  deriving Inhabited, DecidableEq, Repr
+
+/-- Record a computed value. -/
+def Mem.push (m : Mem) (v : Nat) : Mem := { m with last := v, obs := m.obs ++ [v] }
+
+def Mem.field (m : Mem) (i : Nat) : Nat := m.fields.getD i 0
+
+def Mem.setField (m : Mem) (i v : Nat) : Mem := { m with fields := setReg m.fields i v }
+
 /-- The chunked world. -/
 structure CW where
   src : Src
   dst : Dst
   wsusp : Nat
-  dead : Bool
-  obs : List Nat
+  mem : Mem
   deriving Inhabited
 
 /-- The one-shot world. -/
@@ -44,14 +60,13 @@ structure OW where
   rest : List UInt8
   out : List UInt8
   consumed : Nat
-  dead : Bool
-  obs : List Nat
+  mem : Mem
   deriving Inhabited, DecidableEq, Repr
 
 /-- What of a chunked world does not depend on the chunking: the unread bytes in order, the
-bytes written in order, the consumed-byte count, the final-status flag, the computed values. -/
+bytes written in order, the consumed-byte count, and everything that is not I/O. -/
 def CW.abs (w : CW) : OW :=
-  ⟨w.src.pending ++ w.src.future.flatten, w.dst.out, w.src.consumed, w.dead, w.obs⟩
+  ⟨w.src.pending ++ w.src.future.flatten, w.dst.out, w.src.consumed, w.mem⟩
 
 /-- An operation given from outside (a callee): value, world after, number of suspensions; and
 its one-shot counterpart. -/
@@ -63,104 +78,149 @@ structure Ext where
 def Ext.OK (x : Ext) : Prop :=
   ∀ vals w, (x.c vals w).1 = (x.o vals w.abs).1 ∧ (x.c vals w).2.1.abs = (x.o vals w.abs).2
 
-/-- What an expression occurrence does. A function `f obs vals` computes from the values computed
-so far (`obs`: this is how `this.…` fields are read) and from the values of the locals the
-expression mentions (`Ex.vars`, in order). -/
+/-- What an expression occurrence does. A function `f fields vals` computes from the `this.…`
+fields and from the values of the locals the expression mentions (`Ex.vars`, in order). -/
 inductive COp where
-  /-- no I/O: a condition, a right-hand side, a `this.…` field store, a status constant -/
+  /-- no I/O: a condition, a right-hand side, a status constant -/
   | pure (f : List Nat → List Nat → Nat)
+  /-- the left-hand side `this.f_i` of `this.f_i op= rhs`: the field becomes `g old v`, `v` the
+  value computed last (the right-hand side) -/
+  | store (i : Nat) (g : Nat → Nat → Nat)
   /-- `args.src.read_uXXYe?()`, a row of `readMethods` -/
   | rd (m : RdMethod)
-  /-- `args.src.skip?(n: f(locals))` / `skip_u32?` -/
+  /-- `args.src.skip?(n: f(…))` / `skip_u32?` -/
   | skip (f : List Nat → List Nat → Nat)
   /-- `args.src.skip?(n: 1)` -/
   | skip1
-  /-- `args.dst.write_u8?(a: f(locals))` -/
+  /-- `args.dst.write_u8?(a: f(…))` -/
   | wr (f : List Nat → List Nat → Nat)
+  /-- the status of `yield? base."$short read"`: the driver supplies the next chunk; with the
+  source closed and nothing unread it ends the run (final status `$short read`) -/
+  | yieldSR
+  /-- the status of `yield? base."$short write"`: the driver replaces a full destination piece -/
+  | yieldSW
   /-- a callee -/
   | ext (x : Ext)
 
 /-- One operation in the chunked world: value, world after, number of suspensions. -/
 def stepC (op : COp) (vals : List Nat) (w : CW) : Nat × CW × Nat :=
-  if w.dead then (0, w, 0) else
+  if w.mem.dead then (0, w, 0) else
   match op with
-  | .pure f => (f w.obs vals, { w with obs := w.obs ++ [f w.obs vals] }, 0)
+  | .pure f => (f w.mem.fields vals, { w with mem := w.mem.push (f w.mem.fields vals) }, 0)
+  | .store i g =>
+    let v := g (w.mem.field i) w.mem.last
+    (v, { w with mem := (w.mem.setField i v).push v }, 0)
   | .rd m =>
     match readGo m RdSt.start w.src.pending w.src.consumed w.src.susp w.src.future with
-    | (some v, src) => (v, { w with src := src, obs := w.obs ++ [v] }, src.susp - w.src.susp)
-    | (none, src) => (0, { w with src := src, dead := true }, src.susp - w.src.susp)
+    | (some v, src) => (v, { w with src := src, mem := w.mem.push v }, src.susp - w.src.susp)
+    | (none, src) => (0, { w with src := src, mem := { w.mem with dead := true } }, src.susp - w.src.susp)
   | .skip f =>
-    match skipGo (f w.obs vals) w.src.pending w.src.consumed w.src.susp w.src.future with
+    match skipGo (f w.mem.fields vals) w.src.pending w.src.consumed w.src.susp w.src.future with
     | (true, src) => (0, { w with src := src }, src.susp - w.src.susp)
-    | (false, src) => (0, { w with src := src, dead := true }, src.susp - w.src.susp)
+    | (false, src) => (0, { w with src := src, mem := { w.mem with dead := true } }, src.susp - w.src.susp)
   | .skip1 =>
     match skip1Go w.src.pending w.src.consumed w.src.susp w.src.future with
     | (true, src) => (0, { w with src := src }, src.susp - w.src.susp)
-    | (false, src) => (0, { w with src := src, dead := true }, src.susp - w.src.susp)
+    | (false, src) => (0, { w with src := src, mem := { w.mem with dead := true } }, src.susp - w.src.susp)
   | .wr f =>
-    let r := writeGo (f w.obs vals) w.dst.room w.dst.out w.wsusp w.dst.future
+    let r := writeGo (f w.mem.fields vals) w.dst.room w.dst.out w.wsusp w.dst.future
     (0, { w with dst := r.1, wsusp := r.2 }, r.2 - w.wsusp)
+  | .yieldSR =>
+    -- cprobe.go: `if (delivered < total) deliver the next chunk; else if (npending == 0) final`
+    -- (the driver's chunk lists never end in empty chunks only: `chunksOf`)
+    if (w.src.pending ++ w.src.future.flatten).isEmpty then
+      (0, { w with mem := { w.mem with dead := true, nyield := w.mem.nyield + 1 } }, 0)
+    else
+      match w.src.future with
+      | ch :: fut =>
+        (0, { w with src := { w.src with pending := w.src.pending ++ ch, future := fut },
+                     mem := { w.mem with nyield := w.mem.nyield + 1 } }, 0)
+      | [] => (0, { w with mem := { w.mem with nyield := w.mem.nyield + 1 } }, 0)
+  | .yieldSW =>
+    if w.dst.room == 0 then
+      match w.dst.future with
+      | p :: ps =>
+        (0, { w with dst := { w.dst with room := p, future := ps },
+                     mem := { w.mem with nyield := w.mem.nyield + 1 } }, 0)
+      | [] =>
+        (0, { w with dst := { w.dst with room := 65536 },
+                     mem := { w.mem with nyield := w.mem.nyield + 1 } }, 0)
+    else (0, { w with mem := { w.mem with nyield := w.mem.nyield + 1 } }, 0)
   | .ext x => x.c vals w
 
 /-- One operation in the one-shot world. -/
 def stepO (op : COp) (vals : List Nat) (w : OW) : Nat × OW :=
-  if w.dead then (0, w) else
+  if w.mem.dead then (0, w) else
   match op with
-  | .pure f => (f w.obs vals, { w with obs := w.obs ++ [f w.obs vals] })
+  | .pure f => (f w.mem.fields vals, { w with mem := w.mem.push (f w.mem.fields vals) })
+  | .store i g =>
+    let v := g (w.mem.field i) w.mem.last
+    (v, { w with mem := (w.mem.setField i v).push v })
   | .rd m =>
     if m.n / 8 ≤ w.rest.length then
       (peek m.be (w.rest.take (m.n / 8)),
         { w with rest := w.rest.drop (m.n / 8), consumed := w.consumed + m.n / 8,
-                 obs := w.obs ++ [peek m.be (w.rest.take (m.n / 8))] })
-    else (0, { w with rest := [], consumed := w.consumed + w.rest.length, dead := true })
+                 mem := w.mem.push (peek m.be (w.rest.take (m.n / 8))) })
+    else (0, { w with rest := [], consumed := w.consumed + w.rest.length, mem := { w.mem with dead := true } })
   | .skip f =>
-    if f w.obs vals ≤ w.rest.length then
-      (0, { w with rest := w.rest.drop (f w.obs vals), consumed := w.consumed + f w.obs vals })
-    else (0, { w with rest := [], consumed := w.consumed + w.rest.length, dead := true })
+    if f w.mem.fields vals ≤ w.rest.length then
+      (0, { w with rest := w.rest.drop (f w.mem.fields vals), consumed := w.consumed + f w.mem.fields vals })
+    else (0, { w with rest := [], consumed := w.consumed + w.rest.length, mem := { w.mem with dead := true } })
   | .skip1 =>
     if 1 ≤ w.rest.length then (0, { w with rest := w.rest.drop 1, consumed := w.consumed + 1 })
-    else (0, { w with rest := [], consumed := w.consumed + w.rest.length, dead := true })
-  | .wr f => (0, { w with out := w.out ++ [UInt8.ofNat (f w.obs vals % 256)] })
+    else (0, { w with rest := [], consumed := w.consumed + w.rest.length, mem := { w.mem with dead := true } })
+  | .wr f => (0, { w with out := w.out ++ [UInt8.ofNat (f w.mem.fields vals % 256)] })
+  | .yieldSR =>
+    if w.rest.isEmpty then (0, { w with mem := { w.mem with dead := true, nyield := w.mem.nyield + 1 } })
+    else (0, { w with mem := { w.mem with nyield := w.mem.nyield + 1 } })
+  | .yieldSW => (0, { w with mem := { w.mem with nyield := w.mem.nyield + 1 } })
   | .ext x => x.o vals w
 
 /-- The operation of an expression occurrence. Only an expression that the analysis sees as an
 I/O built-in (`coro`, `ioRecv`) can be one; only one it sees as another coroutine call can be a
-callee; anything else is pure (an ill-placed operation reads as the constant 0). -/
+callee (an ill-placed operation reads as the constant 0). Pure functions, field stores and the
+driver's reaction to a yielded status do not suspend and can stand anywhere. -/
 def opAt (interp : Nat → COp) (e : Ex) : COp :=
   match interp e.tag with
   | .pure f => .pure f
+  | .store i g => .store i g
+  | .yieldSR => .yieldSR
+  | .yieldSW => .yieldSW
   | .ext x => if e.coro && !e.ioRecv then .ext x else .pure (fun _ _ => 0)
   | op => if e.coro && e.ioRecv then op else .pure (fun _ _ => 0)
 
-/-- The chunked interpretation. -/
-def chunkCfg (interp : Nat → COp) (comb : Nat → Nat → Nat) : Cfg CW where
+/-- The chunked interpretation; `comb t` is the operator of the `op=` assignment whose right-hand
+side has tag `t`. -/
+def chunkCfg (interp : Nat → COp) (comb : Nat → Nat → Nat → Nat) : Cfg CW where
   val e w vals := (stepC (opAt interp e) vals w).1
   next e w vals := (stepC (opAt interp e) vals w).2.1
   nsusp e w vals := (stepC (opAt interp e) vals w).2.2
-  comb := comb
+  comb e := comb e.tag
 
 /-- The one-shot interpretation (nothing ever suspends). -/
-def oneCfg (interp : Nat → COp) (comb : Nat → Nat → Nat) : Cfg OW where
+def oneCfg (interp : Nat → COp) (comb : Nat → Nat → Nat → Nat) : Cfg OW where
   val e w vals := (stepO (opAt interp e) vals w).1
   next e w vals := (stepO (opAt interp e) vals w).2
   nsusp _ _ _ := 0
-  comb := comb
+  comb e := comb e.tag
+
+def initMem : Mem := ⟨[], 0, false, [], 0⟩
 
 /-- The driver's initial world for source bytes `bs` cut into chunks of the given sizes (after
 the list: all the rest) and destination pieces of the given capacities (after the list: 64 KiB
 pieces): the first chunk and the first piece are in place. -/
 def initCW (srcSizes dstSizes : List Nat) (bs : List UInt8) : CW :=
   let s := initState srcSizes dstSizes bs
-  ⟨s.src, s.dst, 0, false, []⟩
+  ⟨s.src, s.dst, 0, initMem⟩
 
-def initOW (bs : List UInt8) : OW := ⟨bs, [], 0, false, []⟩
+def initOW (bs : List UInt8) : OW := ⟨bs, [], 0, initMem⟩
 
 /-- A callee as an operation of its caller: its body run to completion from zeroed locals — by
 the generated C (only `R` survives a suspension) in the chunked world, by the language in the
 one-shot world. The value is the last value it computed (its `return` status). `interp` may depend
 on the argument values (`args.…` is not a local of the callee). -/
 def callExt (R : Nat → Bool) (body : List Stmt) (interp : List Nat → Nat → COp)
-    (comb : Nat → Nat → Nat) (fuel : Nat) : Ext where
+    (comb : Nat → Nat → Nat → Nat) (fuel : Nat) : Ext where
   c vals w :=
     let r := run R (chunkCfg (interp vals) comb) fuel (Task.block body) ⟨fun _ => 0, w, []⟩
     (r.st.log.getLastD 0, r.st.w, (r.evs.filter (· == Ev.susp)).length)
